@@ -43,6 +43,9 @@ def run_package_property(run, tier, prefixes, ntraces=None, nsteps=None, sources
         run.notes["retype_sweep_histories"] = len(sweep)
         traces = traces + sweep
         # every sample file exported to flat XML straight after being opened (path / memory / folder), before any part was read
+        ssweep = pd.generate(0, run.seed, 5, sources="setpart-sweep")
+        run.notes["setpart_sweep_histories"] = len(ssweep)
+        traces = traces + ssweep
         msweep = pd.generate(0, run.seed, 7, sources="merge-sweep")
         run.notes["merge_sweep_histories"] = len(msweep)
         traces = traces + msweep
